@@ -4,8 +4,8 @@
    Mode "accessors": one finished object, every sequence of at most MaxCalls accessor calls (C18)
    Mode "schedules": every thread has begun one construction; every interleaving of their
                      pipeline steps (C19, forced schedules); an entry of h is the stepping thread
-   Mode "history"  : one thread; complete constructions (valid and failing) and accessor calls
-                     in any order (C19, API histories)                                      *)
+   Mode "history"  : one thread; complete constructions (valid and failing), accessor calls and entry-point
+                     calls (interactive builder, calculator main) in any order (C19, API histories)                                      *)
 EXTENDS System, Json
 CONSTANT Mode
 VARIABLE h
@@ -28,6 +28,7 @@ Construct(i) == /\ Len(heap) < MaxObjs /\ ncalls < MaxCalls
 GNext == IF Mode = "accessors" THEN \E acc \in Accessors : Call(1, acc) /\ h' = Append(h, acc)
          ELSE IF Mode = "schedules" THEN \E t \in Threads : AnyStep(t) /\ h' = Append(h, TIndex(t))
          ELSE \/ \E k \in 1..Len(InputList) : Construct(InputList[k]) /\ h' = Append(h, <<"new", k>>)
+              \/ \E kind \in EntryPoints : EntryPoint(kind) /\ h' = Append(h, <<"entry", kind>>)
               \/ \E o \in 1..MaxObjs, acc \in {"scores","clean","rh","json_sm","mutate_json","hash"} : Call(o, acc) /\ h' = Append(h, <<"call", o, acc>>)
 GSpec == GInit /\ [][GNext]_gvars
 Complete == IF Mode = "schedules" THEN \A t \in Threads : thr[t].pc = 0 ELSE h # <<>>
